@@ -368,6 +368,8 @@ class Ops:
         i = z3.Int(fresh_name('i'))
         xe = self.coerce(x, s.elem)
         return z3.Exists([i], z3.And(i >= 0, i < s.len(c.t), self.sort_eq(s.elem, s.get(c.t, i), xe.t)))
+      if getattr(s, 'contains_hook', None):
+        return s.contains_hook(self, c, x)
       if isinstance(s, (Opaque, StrSort)) and getattr(s, 'is_str', True):
         # `x in <str>`: substring test; modelled as a reflexive uninterpreted relation
         xe = self.coerce(x, s)
@@ -507,8 +509,15 @@ class Ops:
       return self.coerce(a, INT), self.coerce(b, INT), INT
     raise OutsideSubset(f'arithmetic on {a.sort} and {b.sort}')
 
+  def proxy(self, v):
+    """objects that forward arithmetic to one of their fields (nnx.Variable -> .value)"""
+    v = self.deref(v)
+    if isinstance(v, SV) and getattr(v.sort, 'proxy_field', None):
+      return self.getattr_(v, v.sort.proxy_field)
+    return v
+
   def binop(self, op, a, b):
-    a, b = self.deref(a), self.deref(b)
+    a, b = self.proxy(a), self.proxy(b)
     if isinstance(a, SV) and isinstance(a.sort, Union):
       a = self.unwrap(a)
     if isinstance(b, SV) and isinstance(b.sort, Union):
@@ -560,6 +569,16 @@ class Ops:
       return SV(s, x.t - y.t)
     if name == 'Mult':
       return SV(s, x.t * y.t)
+    if name == 'Pow':
+      if isinstance(b, float) and b == 0.5:
+        x = self.coerce(x, REAL)
+        sq = z3.Function('sqrt', z3.RealSort(), z3.RealSort())
+        r = sq(x.t)
+        self.assume(z3.Implies(x.t >= 0, z3.And(r >= 0, r * r == x.t)))
+        return SV(REAL, r)
+      if isinstance(b, int) and b == 2:
+        return SV(s, x.t * x.t)
+      raise OutsideSubset('power operator (only x**0.5 and x**2 are modelled)')
     if name == 'Div':
       x, y = self.coerce(x, REAL), self.coerce(y, REAL)
       if not self.spec_mode:
